@@ -289,7 +289,7 @@ def releases_param(P, g, i, rel, depth=0):
 
 # --------------------------------------------------------------------------- growth
 
-def r8(ctx, P):
+def r8(ctx, P, rule='C10.8'):
     fd = FD(P)
     g = P.fn('jls_buf_realloc')
     ctx.saw(g)
@@ -327,7 +327,7 @@ def r8(ctx, P):
                         ok = True      # = need
                 if not ok:
                     why += ' is not strictly increasing and overflow-free (a self-product is stationary at 0/1, squares 2^20 to 2^40 and wraps to 0)'
-                ctx.ob('C10.8', ok, g.name, 'growth step', ev.where(), why)
+                ctx.ob(rule, ok, g.name, 'growth step', ev.where(), why)
     ctx.floor('growth loop updates in jls_buf_realloc', n, 1)
     # G2: what the payload reader compares when it answers TOO_BIG
     rp = P.fn('jls_raw_rd_payload')
@@ -359,7 +359,7 @@ def r8(ctx, P):
         except Top:
             raise AnalysisBroken('cannot evaluate %s on constants' % need_fn)
     overhead = max(over)
-    ctx.note('C10.8: %s(L) - L over residues = %s (max %d)' % (need_fn, sorted(over), overhead))
+    ctx.note(rule + ': %s(L) - L over residues = %s (max %d)' % (need_fn, sorted(over), overhead))
     # every site that grows a buffer and then reads a payload into it
     n2 = 0
     for fn in P.all_functions():
@@ -380,7 +380,7 @@ def r8(ctx, P):
                 lens = [nd for nd in walk(req) if nd.get('op') == 'member' and nd.get('field') == 'payload_length']
                 bad = []
                 if not lens:
-                    ctx.ob('C10.8', False, fn.name, 'grow request before reading a payload', gr.where(), 'request %s does not depend on the payload length' % show(req))
+                    ctx.ob(rule, False, fn.name, 'grow request before reading a payload', gr.where(), 'request %s does not depend on the payload length' % show(req))
                     continue
                 lp = str(path_of(lens[0]))
                 for L in range(1, 65):
@@ -392,7 +392,7 @@ def r8(ctx, P):
                     need = fd.call(nf, [L])
                     if got < need:
                         bad.append('L=%d: requests %d, reader needs %d' % (L, got, need))
-                ctx.ob('C10.8', not bad, fn.name, 'grow request before reading a payload', gr.where(),
+                ctx.ob(rule, not bad, fn.name, 'grow request before reading a payload', gr.where(),
                        'request %s >= %s(L) for every residue' % (show(req), need_fn) if not bad else
                        'request `%s` is smaller than what %s compares (%s): TOO_BIG is answered again (retry loop spins / chunk is dropped) for payloads within %d bytes of the buffer size; %s' %
                        (show(req), 'jls_raw_rd_payload', need_fn, overhead, bad[0]))
